@@ -284,7 +284,7 @@ func runC05(c *Ctx) {
 				}
 				impl := "error"
 				if vr.BalC == 0 {
-					impl = "ok " + Hex(vr.Bal)
+					impl = "ok " + Hex(canonTable(vr.Bal))
 				}
 				bt.Add(func(model string) {
 					if model == "unsupported" {
